@@ -1,12 +1,53 @@
 (* C11 - allow_infos / allow_warnings only relax the verdict. *)
 From Coq Require Import List NArith Bool.
 From Verif Require Import Base.SetList Base.Terms Base.Vocab Paths.Path Shapes.AST Shapes.Leaf Shapes.Eval
-  Shapes.EvalProofs.
+  Shapes.EvalProofs Shapes.EvalExt.
 Import ListNotations.
 
 (* With any combination of the options (and with or without abort_on_first) the verdict is
-   'conforms' exactly when every reported top-level result has a waived severity. *)
-Theorem C11_verdict : forall o sg g E c rs,
-  validate o sg g E = Ok (c, rs) -> c = all_waived (eopts_of o) rs.
+   'conforms' exactly when every reported top-level result has a waived severity
+   (with no waiver: exactly when there is no result). *)
+Theorem C11_verdict : forall trig o sg g E c rs,
+  validate trig o sg g E = Ok (c, rs) -> c = all_waived (eopts_of o) rs.
 Proof. exact validate_verdict. Qed.
 Print Assumptions C11_verdict.
+
+(* Turning the options on or off never changes which results are reported
+   (same list, hence same set; same failure if the run fails). *)
+Theorem C11_same_results : forall trig o o' sg g E, same_but_waivers o o' ->
+  res_snd (validate trig o sg g E) = res_snd (validate trig o' sg g E).
+Proof. exact validate_same_results. Qed.
+Print Assumptions C11_same_results.
+
+(* conforms(default) -> conforms(allow_infos) -> conforms(allow_warnings) *)
+Theorem C11_monotone : forall trig o o' sg g E c rs c' rs', same_but_waivers o o' ->
+  incl (allowed_severities o) (allowed_severities o') ->
+  validate trig o sg g E = Ok (c, rs) -> validate trig o' sg g E = Ok (c', rs') ->
+  rs = rs' /\ (c = true -> c' = true).
+Proof. exact validate_monotone. Qed.
+Print Assumptions C11_monotone.
+
+(* the waiver sets are ordered as the statement says *)
+Example C11_waiver_chain : forall o,
+  incl (allowed_severities {| abort := abort o; allow_infos := false; allow_warnings := false; max_depth := max_depth o; focus_filter := focus_filter o |})
+       (allowed_severities {| abort := abort o; allow_infos := true; allow_warnings := false; max_depth := max_depth o; focus_filter := focus_filter o |})
+  /\ incl (allowed_severities {| abort := abort o; allow_infos := true; allow_warnings := false; max_depth := max_depth o; focus_filter := focus_filter o |})
+          (allowed_severities {| abort := abort o; allow_infos := false; allow_warnings := true; max_depth := max_depth o; focus_filter := focus_filter o |}).
+Proof. intros o. unfold allowed_severities; simpl. split; intros x; simpl; tauto. Qed.
+
+(* Non-vacuity: sh:not over an Info-severity shape that fails. The waiver does not flip the
+   nested conformance (the defect fixed in /repo 4cb5e8c), the result list is the same under
+   the three settings and the verdicts are monotone. *)
+Definition T : shape := {| sid := IRI 101; spath := None; deact := false; ssev := t_Info; stargets := no_targets;
+                           scomps := [CLeaf (LIn [])] |}.
+Definition S : shape := {| sid := IRI 100; spath := None; deact := false; ssev := t_Violation;
+                           stargets := {| t_nodes := [IRI 7]; t_classes := []; t_implicit := false; t_subjects_of := []; t_objects_of := [] |};
+                           scomps := [CNot [IRI 101]] |}.
+Definition U : shape := {| sid := IRI 102; spath := None; deact := false; ssev := t_Info;
+                           stargets := {| t_nodes := [IRI 7]; t_classes := []; t_implicit := false; t_subjects_of := []; t_objects_of := [] |};
+                           scomps := [CLeaf (LIn [])] |}.
+Definition oo (i w:bool) := {| abort := false; allow_infos := i; allow_warnings := w; max_depth := 15; focus_filter := [] |}.
+Example C11_nonvacuous :
+  validate_impl (oo false false) [] [] [S; T; U] = Ok (false, [VR (IRI 7) (Some (IRI 7)) sh_InConstraintComponent (IRI 102) t_Info []])
+  /\ validate_impl (oo true false) [] [] [S; T; U] = Ok (true, [VR (IRI 7) (Some (IRI 7)) sh_InConstraintComponent (IRI 102) t_Info []]).
+Proof. vm_compute. split; reflexivity. Qed.
